@@ -96,7 +96,7 @@ func c18Invocations(a *Abs, full bool) []inv {
 	})
 	// ids
 	ids := idPool(a)
-	ids = append(ids, taggedArg{"", []string{"arg:empty", "arg-invalid"}}, taggedArg{"zz", []string{"id-malformed", "arg-invalid"}})
+	ids = append(ids, taggedArg{"", []string{"arg:empty", "arg-invalid"}}, taggedArg{"zz", []string{"id-malformed", "arg-invalid"}}, taggedArg{"HEAD", []string{"id-malformed", "arg-invalid"}}, taggedArg{"main", []string{"id-malformed", "arg-invalid"}})
 	for i := range ids {
 		if hasTag(ids[i].tags, "id-malformed") || hasTag(ids[i].tags, "id:unknown") {
 			ids[i].tags = append(ids[i].tags, "arg-invalid")
@@ -156,6 +156,8 @@ func c18Invocations(a *Abs, full bool) []inv {
 		add(true, t, "branch", n.v, "-r", "ghost")
 		add(true, t, "branch", "fresh", "-d", n.v)
 		add(true, t, "branch", n.v, "--list")
+		add(false, t, "branch", "-d", "b", "-d", n.v)
+		add(false, t, "branch", "-d", n.v, "-d", "b")
 		add(false, t, "switch", n.v)
 		add(false, t, "switch", "-c", n.v)
 		add(true, t, "switch", "-c", n.v, "extra")
